@@ -65,7 +65,7 @@ func Run(r *common.Run) error {
 				if f[2] != "-" {
 					codes = strings.Split(f[2], ",")
 				}
-				doComp(e, codes, f[3], "replay")
+				doCompRole(e, f[1] == "8", codes, f[3], "replay")
 				continue
 			}
 			if len(f) > 0 && f[0] == "hs" {
